@@ -60,6 +60,15 @@ class C18(Prop):
                     for st in range(4):
                         cases.append({"kind": "edit", "day": [int(b) for b in day], "st": st, "s": [s // 2, 30 * (s % 2)],
                                       "e": [e // 2, 30 * (e % 2)]})
+        # uniform and nearly uniform days (all on, all off, one slot different): every state x a sample of intervals incl. invalid ones
+        for udays in ([1] * 48, [0] * 48, [1] * 47 + [0], [0] + [1] * 47, [0] * 24 + [1] * 24):
+            for st in range(4):
+                for s_, e_ in [(0, 0), (0, 47), (24, 22), (13, 13), (47, 0), (5, 6), (46, 47), (1, 0)] + \
+                              [(rng.randrange(48), rng.randrange(48)) for _ in range(4 if tier == "quick" else 40)]:
+                    cases.append({"kind": "edit-uniform", "day": list(udays), "st": st, "s": [s_ // 2, 30 * (s_ % 2)], "e": [e_ // 2, 30 * (e_ % 2)]})
+                for bad in ([24, 0], [25, 30], [12, 60], [99, 99]):
+                    cases.append({"kind": "edit-invalid:time", "day": list(udays), "st": st, "s": [12, 0], "e": bad})
+                    cases.append({"kind": "edit-invalid:time", "day": list(udays), "st": st, "s": bad, "e": [13, 0]})
         day = [int(b) for b in patterns[0]]
         for _ in range(200):
             kind = rng.choice(["state", "time", "unaligned"])
